@@ -11,7 +11,9 @@ _KF_EVENTS = [
     [r'^scipy\.signal\.sosfiltfilt\(sos, xf, axis=(.*)\)$', 'sosfiltfilt', [r'\1']],
     [r'^np\.real\(np\.fft\.ifft2\(fk_att \* np\.fft\.fft2\(xf\)\)\)$', 'fk_multiply', []],
 ]
-_KF_BASE = {'collection is not None': False, 'gpu': False, 'butter_kwargs is None': False}
+# fk's argument checks (`assert vbounds` / a raise in a rewrite) and its btype dispatch are outside the stage skeleton: valid arguments assumed
+_KF_BASE = {'collection is not None': False, 'gpu': False, 'butter_kwargs is None': False, 'not vbounds': False,
+            r"btype\.lower\(\) in \['highpass', 'hp'\]": True}
 
 _DS_EVENTS = [
     [r'^scipy\.signal\.sosfiltfilt\(sos, x\)$', 'temporal', []],
